@@ -258,6 +258,7 @@ impl Ctl {
             }
         }
         self.last_ttl = ttl.clone();
+        let (over, neg) = match snapshot.weight_used { Some(used) => (used > snapshot.max_weight, used < 0), None => (false, false) };
         let used = match snapshot.weight_used { Some(used) => clamp(used), None => self.last_used };
         self.last_used = used;
         let buf: Vec<i64> = snapshot.buffer_lens.iter().enumerate().map(|(index, len)| match len {
@@ -276,7 +277,7 @@ impl Ctl {
             }
         }
         StateRec {
-            store, kw, used, max: clamp(snapshot.max_weight), ttl,
+            store, kw, used, max: clamp(snapshot.max_weight), over, neg, ttl,
             qlen: snapshot.queue_len as i64, chlen: snapshot.access_channel_len as i64, buf,
             stats: snapshot.stats.iter().map(|value| clamp(*value as i64)).collect(),
             ratio_ppm: (snapshot.hit_ratio * 1_000_000.0).round() as i64,
